@@ -1,6 +1,7 @@
 package main
 
 import (
+	"time"
 	"flag"
 	"fmt"
 	"os"
@@ -73,6 +74,10 @@ func runMutants(root string, ms []Mutant, claims Claims, known []KnownFinding, d
 				return
 			}
 			p, err := vc.Load(repoDir(), filepath.Join(root, "stubs"), ov)
+			if err != nil {
+				time.Sleep(3 * time.Second) // one retry: the go command may fail transiently under load
+				p, err = vc.Load(repoDir(), filepath.Join(root, "stubs"), ov)
+			}
 			if err != nil {
 				detail = "does not load: " + err.Error()
 				mu.Lock()
